@@ -41,7 +41,7 @@ def family_programs(ctx, quick):
         designs = designs[::8]
     for d in designs:
         out.append((d, "plain", "security:%s" % d["api"]["name"]))
-    for g in ("G1", "G2", "G3", "G4", "G5", "G6"):
+    for g in ("G1", "G2", "G3", "G4", "G5", "G6", "G7", "G8"):
         out.append((c08.design(g), "views/recursive-result-type" if g == "G4" else "plain", "views:" + g))
     return out
 
@@ -82,6 +82,17 @@ def run(ctx):
             if k not in seen:
                 seen.add(k)
                 shapes.append({"pa": v["pa"], "ra": v["ra"], "tagged": v.get("tagged", False)})
+    # two-attribute methods: the same shape twice (one alias / nested type referenced by two attributes), and two
+    # attributes in one non-body location
+    npair = 40 if quick else 600
+    for fam in ("req", "res"):
+        allv = hc.gen_vectors(ctx, fam, 1, 1, label="Gen %s 1x1 (for pairs)" % fam)
+        for mode in ("twin", "sameloc"):
+            for v in hc.combine_cases(ctx, allv, npair, ctx.seed, fam=fam, mode=mode):
+                k = hg.shape_key(v)
+                if k not in seen:
+                    seen.add(k)
+                    shapes.append({"pa": v["pa"], "ra": v["ra"], "tagged": v.get("tagged", False)})
     designs, where = hg.pack_designs(shapes, 40)
     for d in designs:
         d["api"]["servers"] = 1
